@@ -327,13 +327,14 @@ func checkC10(r *Run) {
 			r.check(rlerr, "r4", "lookup: Rlerror is always accepted", lit.Pos(), "Rlerror → fresh rlerror", "Rlerror is not accepted in place of the expected reply")
 		}
 		// r5 broadcast
+		errName := m.resultName(ho, -1, isCallTo(info, "p9.recv"))
 		var okRange, okReplace bool
 		ast.Inspect(ho.Decl.Body, func(nd ast.Node) bool {
 			switch v := nd.(type) {
 			case *ast.RangeStmt:
 				if strings.HasSuffix(norm(v.X), ".pending") {
 					ast.Inspect(v.Body, func(n2 ast.Node) bool {
-						if ss, ok := n2.(*ast.SendStmt); ok && strings.HasSuffix(norm(ss.Chan), ".done") && norm(ss.Value) == "err" {
+						if ss, ok := n2.(*ast.SendStmt); ok && strings.HasSuffix(norm(ss.Chan), ".done") && m.resolver(ho).str(ss.Value) == errName && errName != "" {
 							okRange = true
 						}
 						return true
@@ -348,7 +349,7 @@ func checkC10(r *Run) {
 		})
 		okBranch := false
 		for _, b := range db.Blocking {
-			if b.Root == ho && b.Callee == "chan<-" && b.St.holds("err == nil", false) && hasClass(b.St.Locks, "p9.Client.pendingMu") {
+			if b.Root == ho && b.Callee == "chan<-" && b.St.holds(errName+" == nil", false) && hasClass(b.St.Locks, "p9.Client.pendingMu") {
 				okBranch = true
 			}
 		}
